@@ -257,6 +257,7 @@ def concretise(chk, sc, cfgseed, ndims, style=None):
 # ------------------------------------------------------------------ running the real validator
 
 def taste(d, sc):
+    """`d` may be any spelling of the directory (harness/spell.py)."""
     from amr_kitchen.taste import Taster
     o = sc["opts"]
     try:
@@ -276,13 +277,13 @@ FAB_ANY = re.compile(rb"FAB \(\(8, \(64 11 52 0 1 12 0 1023\)\),\(8, \(8 7 6 5 4
                      rb"\(\(([-0-9,]+)\)\s+\(([-0-9,]+)\)\s+\(([-0-9,]+)\)\)\s+(\d+)\n")
 
 
-def read_consistency(d, sc, ndims):
+def read_consistency(d, sc, ndims, open_as=None):
     """C20 oracle: every box of every validated level reads, with the declared shape for all fields,
     the values of the FAB in its file whose header names its index range.  Returns None or text."""
     from amr_kitchen import PlotfileCooker
     try:
         with core.quiet():
-            pck = PlotfileCooker(d, limit_level=sc["lim"])
+            pck = PlotfileCooker(open_as or d, limit_level=sc["lim"])
     except Exception as e:
         return "accepted by taste but the reader cannot open it: %r" % e
     H = alpha.parse_header(d)
